@@ -5,6 +5,7 @@ package main
 import (
 	"bytes"
 	"fmt"
+	"github.com/google/pprof/internal/transport"
 	"io"
 	"net/url"
 	"os"
@@ -110,7 +111,7 @@ func c01SessionProto(p *profile.Profile, lines []string, last string) (out Term)
 	defer restore()
 	driver.VerifSetCurrentConfig(driver.VerifDefaultConfig())
 	mw := &c10MemWriter{}
-	o := driver.VerifSetDefaults(&plugin.Options{UI: &c10UI{lines: lines}, Writer: mw, Sym: c09Sym{}, Obj: &c09Obj{}})
+	o := driver.VerifSetDefaults(&plugin.Options{UI: &c10UI{lines: lines}, Writer: mw, Sym: c09Sym{}, Obj: &c09Obj{}, HTTPTransport: transport.New(nil)})
 	if err := driver.VerifInteractive(p.Copy(), o); err != nil {
 		return L(S("err"), S(err.Error()))
 	}
